@@ -148,8 +148,8 @@ var int32s = []int64{0, 1, -1, math.MaxInt32, math.MinInt32, 2001, 5012, 127, 12
 var uint32s = []uint64{0, 1, math.MaxUint32, 1 << 31, 1<<31 - 1, 2001, 3001, 5012, 10415, 255, 256, 65535, 65536}
 var int64s = []int64{0, 1, -1, math.MaxInt64, math.MinInt64, math.MaxInt32, math.MinInt32, 1 << 32, -(1 << 32)}
 var uint64s = []uint64{0, 1, math.MaxUint64, 1 << 63, 1<<63 - 1, 1 << 32, math.MaxUint32}
-var f32s = []uint32{0, 0x80000000, 0x7f800000, 0xff800000, 0x7fc00000, 0x7fc00001, 0xffc12345, 0x7f800001, 1, 0x007fffff, 0x00800000, 0x7f7fffff, 0x3f800000}
-var f64s = []uint64{0, 0x8000000000000000, 0x7ff0000000000000, 0xfff0000000000000, 0x7ff8000000000000, 0x7ff8000000000001, 0xfff8123456789abc, 0x7ff0000000000001, 1, 0x000fffffffffffff, 0x0010000000000000, 0x7fefffffffffffff, 0x3ff0000000000000}
+var f32s = []uint32{0, 0x80000000, 0x7f800000, 0xff800000, 0x7fc00000, 0x7fc00001, 0xffc12345, 0x7f800001, 0x7fa00000, 0xff812345, 1, 0x007fffff, 0x00800000, 0x7f7fffff, 0x3f800000}
+var f64s = []uint64{0, 0x8000000000000000, 0x7ff0000000000000, 0xfff0000000000000, 0x7ff8000000000000, 0x7ff8000000000001, 0xfff8123456789abc, 0x7ff0000000000001, 0x7ff4000000000000, 0xfff0123456789abc, 1, 0x000fffffffffffff, 0x0010000000000000, 0x7fefffffffffffff, 0x3ff0000000000000}
 
 const (
 	TimeMin  = -61505152  // 1968-01-20T03:14:08Z: wire value 0x80000000
